@@ -362,6 +362,8 @@ def judge(sc, run, world, callers, mon, lost, q_stats):
         leaf = p.peer.leaf()
         for msg in getattr(leaf, "wire_violations", []):
             v1.append(V("C01", "reused-unfinished-connection", f"pipe {p.id} ({kind}): {msg}", **base))
+        for msg in (getattr(getattr(leaf, "h2", None), "errors", None) or []):
+            v1.append(V("C01", "wire-desync", f"pipe {p.id} ({kind}): the HTTP/2 peer cannot decode what this client sent on the connection: {msg}", **base))
         for msg in getattr(leaf, "parse_errors", []):
             v1.append(V("C01", "wire-desync", f"pipe {p.id} ({kind}): the bytes written on this connection do not parse as a sequence of requests: {msg}", **base))
         exs = leaf.all_exchanges() if hasattr(leaf, "all_exchanges") else []
@@ -435,8 +437,15 @@ def poisoned_by_known(sc, run, callers):
         if c.cancel is not None and c.cancel_fired_at is not None:
             site = c.delivery_site or c.cancel_site
             return {"trigger": "cancel-" + c.cancel["style"], "site": site[0] if site else "outside-httpcore",
-                    "in_shield": bool(c.in_shield_at_delivery if c.delivery_site is not None else c.in_shield_at_cancel)}
+                    "in_shield": bool(c.in_shield_at_delivery if c.delivery_site is not None else c.in_shield_at_cancel),
+                    "own_write_parked": own_write_parked(c)}
     return {}
+
+
+def own_write_parked(c):
+    """The cancelled caller had a network WRITE of its own in flight (parked at the harness gate) when the cancellation landed."""
+    kind = getattr(c, "parked_kind_at_delivery", None) if c.delivery_site is not None else getattr(c, "parked_kind_at_cancel", None)
+    return kind == "write"
 
 
 def make_execute(prop_id):
